@@ -328,6 +328,53 @@ def stringlike_harness(e):
     return scenario
 
 
+class _NeverEqual:
+    """An object whose == is not reflexive (like a float NaN or a decimal NaN)."""
+
+    def __eq__(self, o):
+        return False
+
+    def __hash__(self):
+        return 7
+
+    def __str__(self):
+        return "never"
+
+
+def nonreflexive_harness(e):
+    """`$name` means == with the captured value (content equality for nodes): when the very same
+    object sits at both places and is not == to itself (NaN), the variable does not match."""
+    import math
+
+    from pyoak.match.pattern import NodeMatcher
+
+    reset_all()
+    values = [("math.nan", math.nan), ("float('nan') twice", None), ("object with a non-reflexive ==", _NeverEqual()), ("1.5", 1.5), ("'x'", "x"), ("None", None)]
+    vno = e.choice(len(values), "value")
+    label, value = values[vno]
+    if label == "float('nan') twice":
+        a_val, b_val = float("nan"), float("nan")
+    else:
+        a_val = b_val = value
+    where = e.pick(["two-fields", "two-sequence-elements"], "where")
+    if where == "two-fields":
+        node = build(R("VStr2", {"a": a_val, "b": b_val}))
+        desc = T(["VStr2"], ("a", None, "v"), ("b", ("val", ("var", "v")), None))
+    else:
+        node = build(R("VRich", {"t": (a_val, b_val)}))
+        desc = T(["VRich"], ("t", ("seq", [(("re", ".*"), "first"), (("var", "first"), None)], None), None))
+    text = PR.render(desc)
+    matcher, msg = NodeMatcher.from_pattern(text)
+    scenario: dict[str, Any] = {"value": label, "pattern": text, "where": where}
+    if matcher is None:
+        scenario.update(message=msg)
+        e.fail("well-formed-pattern-does-not-compile", scenario=scenario)
+    ok, caps = matcher.match(node)
+    _compare(e, text, desc, node, ok, dict(caps), scenario)
+    e.distinct((vno, where))
+    return scenario
+
+
 def empty_bracket_harness(e):
     """`[]` matches only the empty TUPLE: not "", not b"", not an empty list / frozenset / range,
     not None, not 0 -- as a field spec, captured, and as the first rule of a MultiPatternMatcher."""
@@ -444,6 +491,7 @@ def spec(tier: str, seed: int) -> Spec:
     var = "selectors: pattern derivation, node, cache state"
     fams = [Family(f"single[{k}:{k + chunk}]", make_harness(single[k : k + chunk]), variables=var) for k in range(0, len(single), chunk)]
     fams.append(Family("multi-field", make_harness(multi), variables=var))
+    fams.append(Family("values-with-a-non-reflexive-equality", nonreflexive_harness, variables="selectors: value (NaN as one object / two objects, an object never equal to itself, ordinary values), place of capture and use"))
     fams.append(Family("empty-bracket-values", empty_bracket_harness, variables="selectors: value (empty tuple, other empty sequences, None, 0, non-empty), captured or not, entry point"))
     fams.append(Family("string-like-values", stringlike_harness, variables="selectors: value (str subclass, str-mixin enum, int subclass, plain), regex"))
     fams.append(Family("similar-pattern-texts", similar_harness, variables="selectors: two regexes that differ in white space, two token layouts, value, entry point"))
